@@ -169,6 +169,19 @@ def run(chk, replay=None):
                             resp["bytes"] = bytes(b)
                         elif len(cmd.datain):
                             cmd.datain[:] = bytes((7 * i + 1) & 0xFF for i in range(len(cmd.datain)))
+                    if method in ("readcapacity16", "getlbastatus", "reportpriority", "reporttargetportgroups"):
+                        # these commands are found by operation code in the device's table: devices of the other
+                        # types ask first (whatever comes of it), the answer for THIS device's set must not change
+                        for other in ("smc", "ssc", "mmc", "spc", "sbc"):
+                            if other == setname:
+                                continue
+                            od = RecDevice(ec.spc, None)
+                            of = SCSI(od, bs)
+                            od.opcodes = getattr(ec, other)
+                            try:
+                                getattr(of, method)(*[a[n] for n in req if n != "data"])
+                            except BaseException:
+                                pass
                     dev = RecDevice(ec.spc, None)
                     facade = SCSI(dev, bs)
                     dev.opcodes = table
